@@ -125,7 +125,11 @@ class Verifier(Engine):
         ty = self.tenv.parse(s.annotation)
         if s.value is None:
             return [Outcome("normal", st)]
-        v = self.coerce(self.expr(s.value, st), ty)
+        self.expected_type = ty
+        try:
+            v = self.coerce(self.expr(s.value, st), ty)
+        finally:
+            self.expected_type = None
         outs = self.flush_raises(st)
         self.assign(s.target, v, st)
         return outs + self.flush_raises(st) + [Outcome("normal", st)]
@@ -550,6 +554,7 @@ class Verifier(Engine):
             return info
         self.cur_func = c.name
         self.cur_contract = c
+        self.aux_facts = []
         self.func_line = fd.lineno
         self.loop_ordinals = {}
         k = 0
@@ -694,6 +699,10 @@ class Verifier(Engine):
             self.prove_then_assume(st, self.clause(t, st), label, text=t)
             return
         call = ast.parse(t[4:].strip(), mode="eval").body
+        guard = None
+        if isinstance(call, ast.IfExp):  # use lemma(args) if cond else True
+            guard = self.clause(ast.unparse(call.test), st)
+            call = call.body
         if not (isinstance(call, ast.Call) and isinstance(call.func, ast.Name) and call.func.id in self.lemma_defs):
             raise ContractError(f"`{t}`: not a call of a known lemma")
         lem = self.lemma_defs[call.func.id]
@@ -712,6 +721,17 @@ class Verifier(Engine):
         inst.env = dict(zip(names, vals))
         inst.heap = dict(st.heap)
         inst.pc = st.pc
+        if guard is not None:
+            gst = st.fork()
+            gst.pc.append(guard)
+            inst.pc = gst.pc
+            self._use_body(gst, inst, lem, label, t)
+            self.assume(st, z3.Implies(guard, self.clause(lem.ensures, inst)))
+            return
+        self._use_body(st, inst, lem, label, t)
+        self.assume(st, self.clause(lem.ensures, inst))
+
+    def _use_body(self, st: State, inst: State, lem: Lemma, label: str, t: str) -> None:
         if getattr(self, "cur_lemma", None) is lem:
             # recursive use inside the lemma's own proof: the measure must decrease (well-founded induction)
             mtxt = lem.measure or (f"len({lem.induction})" if lem.induction else "")
@@ -722,7 +742,6 @@ class Verifier(Engine):
             self.emit(st, z3.And(0 <= m_inst, m_inst < m_cur), f"{label}.use:{lem.name}.decreases", text=f"{mtxt} decreases")
         for r in lem.requires:
             self.emit(st, self.clause(r, inst), f"{label}.use:{lem.name}.requires", text=r)
-        self.assume(st, self.clause(lem.ensures, inst))
 
     # ==================================================================== lemmas
     def prove_lemma(self, lem: Lemma) -> None:
@@ -730,7 +749,9 @@ class Verifier(Engine):
         """Emit the VCs of a lemma (optionally by induction) and register it as an axiom."""
         self.cur_func = f"lemma:{lem.name}"
         self.cur_contract = None
+        self.aux_facts = []
         self.cur_hide = list(lem.hide)
+        self.cur_prelude = list(lem.prelude)
         self.cur_inputs = {}
         st = State()
         bvs = []
@@ -795,6 +816,7 @@ class Verifier(Engine):
         else:
             self.trusted_used.add(f"lemma {lem.name} (assumed)")
         self.cur_hide = None
+        self.cur_prelude = None
         self.cur_lemma = None
         if lem.explicit:
             return  # instantiated only through `use lemma(args)` hints
